@@ -15,10 +15,45 @@ theorem writtenElem_not_pending (q : Nat) (i : Id) (x : Staged) : (writtenElem q
   · intro h; cases h
   · assumption
 
+theorem eraseAll_nil (log : List VEntry) : eraseAll [] log = log := by
+  simp [eraseAll]
+
+theorem purgeVersions_eq (log : List VEntry) (i : Id) : purgeVersions log i = eraseAll [i] log := by
+  unfold purgeVersions eraseAll
+  congr 1
+  funext v
+  by_cases h : v.id = i <;> simp [h]
+
+theorem eraseAll_eraseAll (a b : List Id) (log : List VEntry) : eraseAll a (eraseAll b log) = eraseAll (b ++ a) log := by
+  unfold eraseAll
+  rw [List.filter_filter]
+  congr 1
+  funext v
+  simp only [List.contains_append, Bool.not_or, Bool.and_comm]
+
+theorem eraseAll_cons_keep (a : List Id) (v : VEntry) (log : List VEntry) (h : v.id ∉ a) :
+    eraseAll a (v :: log) = v :: eraseAll a log := by
+  unfold eraseAll
+  rw [List.filter_cons]
+  simp [h]
+
+theorem eraseAll_append (a : List Id) (x y : List VEntry) : eraseAll a (x ++ y) = eraseAll a x ++ eraseAll a y := by
+  unfold eraseAll; exact List.filter_append ..
+
+theorem mem_eraseAll {a : List Id} {log : List VEntry} {v : VEntry} (h : v ∈ eraseAll a log) : v ∈ log ∧ v.id ∉ a := by
+  unfold eraseAll at h
+  have := List.mem_filter.mp h
+  exact ⟨this.1, by simpa using this.2⟩
+
+/-- the rows a write destroys first: those of the element itself when a purge of it is staged -/
+def erasedBy (i : Id) (x : Staged) : List Id := if x.erase = true then [i] else []
+
 theorem writeOne_ok {s s' : Store} {q : Nat} {i : Id} {x : Staged} (h : writeOne s q i x = .ok s') :
     (s.elems i).isSome = true ∧ s'.elems = setElem s.elems i (some (writtenElem q i x)) ∧
-    s'.vlog = { id := i, version := (changeOf i x).version, seq := q, op := x.op, elem := writtenElem q i x } :: s.vlog ∧
+    s'.vlog = { id := i, version := (changeOf i x).version, seq := q, op := x.op, elem := writtenElem q i x } ::
+        eraseAll (erasedBy i x) s.vlog ∧
     s'.next = s.next ∧ s'.seq = s.seq ∧ s'.journal = s.journal := by
+  have hloop : Gen.NexusOrder.purgeErasureInLoop = true := Gen.NexusOrder.gen_purge_in_loop
   unfold writeOne at h
   split at h
   · cases h
@@ -26,7 +61,11 @@ theorem writeOne_ok {s s' : Store} {q : Nat} {i : Id} {x : Staged} (h : writeOne
     split at h
     · cases h
     · cases h
-      exact ⟨by simp [he], rfl, rfl, rfl, rfl, rfl⟩
+      refine ⟨by simp [he], rfl, ?_, rfl, rfl, rfl⟩
+      simp only [hloop, and_true, erasedBy]
+      cases her : x.erase with
+      | true => simp only [if_true]; rw [purgeVersions_eq]; rfl
+      | false => simp only [Bool.false_eq_true, if_false]; rw [eraseAll_nil]; rfl
 
 theorem writeOne_WF {s s' : Store} {q : Nat} {i : Id} {x : Staged} (hwf : WF s) (h : writeOne s q i x = .ok s') : WF s' := by
   obtain ⟨hsome, hel, _, hnext, _, _⟩ := writeOne_ok h
@@ -44,14 +83,18 @@ theorem writeOne_WF {s s' : Store} {q : Nat} {i : Id} {x : Staged} (hwf : WF s) 
 /-- what one run of the loop over `m` (entries with pairwise distinct ids) does, in terms of the
 change records `w'` it adds -/
 structure LoopSpec (q : Nat) (s : Store) (m : List (Id × Staged)) (acc : List Change)
-    (r : Store × List Change × Option Err) (w' : List Change) (extra : List VEntry) : Prop where
+    (r : Store × List Change × Option Err) (w' : List Change) (extra : List VEntry) (erased : List Id) : Prop where
   changes : r.2.1 = acc ++ w'
   frame : ∀ i, (∀ c ∈ w', c.id ≠ i) → r.1.elems i = s.elems i
   written : ∀ c ∈ w', ∃ x, (c.id, x) ∈ m ∧ x.changed = true ∧ c = changeOf c.id x ∧
       r.1.elems c.id = some (writtenElem q c.id x) ∧ (s.elems c.id).isSome = true
   ids : ∀ c ∈ w', c.id ∈ m.map (·.1)
   nodup : (w'.map (·.id)).Nodup
-  vlog : r.1.vlog = extra ++ s.vlog
+  /-- the log: the rows the loop appended, on top of the old log minus the rows of purged elements -/
+  vlog : r.1.vlog = extra ++ eraseAll erased s.vlog
+  /-- only elements the loop wrote, whose staged row carries a purge, lose rows -/
+  erasedSub : ∀ i ∈ erased, i ∈ w'.map (·.id) ∧ ∃ x, (i, x) ∈ m ∧ x.erase = true
+  erasedAll : r.2.2 = none → erased = erasedIds m
   extraIds : extra.map (·.id) = (w'.map (·.id)).reverse
   extraOK : ∀ v ∈ extra, v.seq = q ∧ r.1.elems v.id = some v.elem ∧ v.version = v.elem.version ∧ v.elem.state ≠ .pending
   complete : r.2.2 = none → w' = changeRecords m
@@ -66,13 +109,14 @@ theorem changeRecords_cons_unchanged (i : Id) (x : Staged) (m : List (Id × Stag
   simp [changeRecords, h]
 
 theorem writeLoop_spec (q : Nat) (m : List (Id × Staged)) (hn : (m.map (·.1)).Nodup) :
-    ∀ (s : Store) (acc : List Change), ∃ w' extra, LoopSpec q s m acc (writeLoop q s m acc) w' extra := by
+    ∀ (s : Store) (acc : List Change), ∃ w' extra erased, LoopSpec q s m acc (writeLoop q s m acc) w' extra erased := by
   induction m with
   | nil =>
       intro s acc
-      refine ⟨[], [], ?_⟩
+      refine ⟨[], [], [], ?_⟩
       exact { changes := by simp [writeLoop], frame := fun _ _ => rfl, written := (by intro c hc; cases hc),
-              ids := (by intro c hc; cases hc), nodup := by simp, vlog := rfl, extraIds := rfl,
+              ids := (by intro c hc; cases hc), nodup := by simp, vlog := (by rw [eraseAll_nil]; rfl), extraIds := rfl,
+              erasedSub := (by intro i hi; cases hi), erasedAll := fun _ => rfl,
               extraOK := (by intro v hv; cases hv), complete := fun _ => rfl, wf := fun h => h }
   | cons p rest ih =>
       obtain ⟨i, x⟩ := p
@@ -82,14 +126,22 @@ theorem writeLoop_spec (q : Nat) (m : List (Id × Staged)) (hn : (m.map (·.1)).
       cases hc : x.changed with
       | false =>
           simp only [Bool.false_eq_true, if_false]
-          obtain ⟨w', extra, sp⟩ := ih hn.2 s acc
-          refine ⟨w', extra, ?_⟩
+          obtain ⟨w', extra, erased, sp⟩ := ih hn.2 s acc
+          refine ⟨w', extra, erased, ?_⟩
           exact { changes := sp.changes, frame := sp.frame,
                   written := by
                     intro c hcm
                     obtain ⟨y, hy, rest'⟩ := sp.written c hcm
                     exact ⟨y, List.mem_cons_of_mem _ hy, rest'⟩,
                   ids := fun c hcm => List.mem_cons_of_mem _ (sp.ids c hcm), nodup := sp.nodup, vlog := sp.vlog,
+                  erasedSub := (by
+                    intro j hj
+                    obtain ⟨h1, y, hy, hye⟩ := sp.erasedSub j hj
+                    exact ⟨h1, y, List.mem_cons_of_mem _ hy, hye⟩),
+                  erasedAll := (by
+                    intro h
+                    rw [sp.erasedAll h]
+                    simp [erasedIds, List.filter_cons, hc]),
                   extraIds := sp.extraIds, extraOK := sp.extraOK,
                   complete := by intro h; rw [changeRecords_cons_unchanged i x rest hc]; exact sp.complete h,
                   wf := sp.wf }
@@ -97,21 +149,28 @@ theorem writeLoop_spec (q : Nat) (m : List (Id × Staged)) (hn : (m.map (·.1)).
           simp only [if_true]
           cases hw : writeOne s q i x with
           | error e =>
-              refine ⟨[], [], ?_⟩
+              refine ⟨[], [], [], ?_⟩
               exact { changes := by simp, frame := fun _ _ => rfl, written := (by intro c hcm; cases hcm),
-                      ids := (by intro c hcm; cases hcm), nodup := by simp, vlog := rfl, extraIds := rfl,
+                      ids := (by intro c hcm; cases hcm), nodup := by simp, vlog := (by rw [eraseAll_nil]; rfl), extraIds := rfl,
+                      erasedSub := (by intro j hj; cases hj), erasedAll := (by intro h; cases h),
                       extraOK := (by intro v hv; cases hv), complete := (by intro h; cases h), wf := fun h => h }
           | ok s1 =>
               simp only []
               obtain ⟨hsome, hel, hvl, hnx, hsq, hjn⟩ := writeOne_ok hw
-              obtain ⟨w'', extra'', sp⟩ := ih hn.2 s1 (acc ++ [changeOf i x])
+              obtain ⟨w'', extra'', erased'', sp⟩ := ih hn.2 s1 (acc ++ [changeOf i x])
               have hne : ∀ c ∈ w'', c.id ≠ i := by
                 intro c hcm heq
                 exact hn.1 (heq ▸ sp.ids c hcm)
               have hcur : (writeLoop q s1 rest (acc ++ [changeOf i x])).1.elems i = some (writtenElem q i x) := by
                 rw [sp.frame i hne, hel]; simp [setElem]
               refine ⟨changeOf i x :: w'',
-                extra'' ++ [{ id := i, version := (changeOf i x).version, seq := q, op := x.op, elem := writtenElem q i x }], ?_⟩
+                extra'' ++ [{ id := i, version := (changeOf i x).version, seq := q, op := x.op, elem := writtenElem q i x }],
+                erasedBy i x ++ erased'', ?_⟩
+              have hnotin : i ∉ erased'' := by
+                intro hi
+                obtain ⟨h1, _⟩ := sp.erasedSub i hi
+                obtain ⟨c, hcm, hci⟩ := List.mem_map.mp h1
+                exact hne c hcm hci
               exact {
                 changes := by rw [sp.changes]; simp,
                 frame := by
@@ -139,7 +198,26 @@ theorem writeLoop_spec (q : Nat) (m : List (Id × Staged)) (hn : (m.map (·.1)).
                   intro hm
                   obtain ⟨c, hcm, hci⟩ := List.mem_map.mp hm
                   exact hne c hcm hci,
-                vlog := by rw [sp.vlog, hvl]; simp,
+                vlog := by
+                  rw [sp.vlog, hvl, eraseAll_cons_keep _ _ _ hnotin, eraseAll_eraseAll]
+                  simp,
+                erasedSub := by
+                  intro j hj
+                  rcases List.mem_append.mp hj with h1 | h1
+                  · unfold erasedBy at h1
+                    split at h1
+                    · rename_i her
+                      simp only [List.mem_singleton] at h1
+                      subst h1
+                      exact ⟨by simp [changeOf], x, List.mem_cons_self, her⟩
+                    · cases h1
+                  · obtain ⟨h2, y, hy, hye⟩ := sp.erasedSub j h1
+                    exact ⟨by simp only [List.map_cons, List.mem_cons]; exact .inr h2, y, List.mem_cons_of_mem _ hy, hye⟩,
+                erasedAll := by
+                  intro h
+                  rw [sp.erasedAll h]
+                  unfold erasedBy
+                  cases her : x.erase <;> simp [erasedIds, List.filter_cons, hc, her],
                 extraIds := by simp [sp.extraIds, changeOf],
                 extraOK := by
                   intro v hv
